@@ -81,6 +81,12 @@ func c04checkMatch(m *Match, oxms [][]byte) {
 			vr.Assert(m.Fields[i].Field == oxms[i][2]>>1, "match-field-number")
 			vr.Assert(m.Fields[i].HasMask == (oxms[i][2]&1 == 1), "match-field-hasmask")
 			vr.Assert(m.Fields[i].Length == oxms[i][3], "match-field-length")
+			if oxms[i][2]&1 == 0 {
+				vr.Assert(m.Fields[i].Mask == nil, "unmasked-field-has-no-mask")
+			}
+			if oxms[i][0] != 0xff || oxms[i][1] != 0xff {
+				vr.Assert(m.Fields[i].ExperimenterID == 0, "non-experimenter-field-has-no-experimenter-id")
+			}
 		}
 		n += len(oxms[i])
 	}
@@ -589,6 +595,53 @@ func VerifC04_MatchFieldKinds() {
 		refOXM(fw)
 		oxms = append(oxms, fw.b)
 		w.raw(fw.b)
+	}
+	w.setU16(start+2, uint16(len(w.b)-start))
+	w.padTo8()
+	f, ok := c04parse(w).(*FlowRemoved)
+	vr.Assert(ok, "kind")
+	c04checkHeader(&f.Header, 11, xid, len(w.b))
+	c04checkMatch(&f.Match, oxms)
+}
+
+// an ONF experimenter-class OXM (class 0xffff, experimenter id 0x4f4e4600 counted in the
+// length: tcp_flags 42 or actset_output 43) between ordinary fields: the fields after it are
+// found at their own offsets and carry none of its state
+func VerifC04_ExperimenterOXM() {
+	w := &refW{}
+	xid := c04hdr(w, 11)
+	w.zeros(40)
+	start := len(w.b)
+	w.u16(1)
+	w.u16(0)
+	var oxms [][]byte
+	add := func(fw *refW) {
+		oxms = append(oxms, fw.b)
+		w.raw(fw.b)
+	}
+	fw := &refW{}
+	_ = buildField(1) // eth_dst, masked or not
+	refOXM(fw)
+	add(fw)
+	fw = &refW{}
+	fw.u16(0xffff)
+	if vr.Bool("actset-output") {
+		fw.u8(43 << 1)
+		fw.u8(8)
+		fw.u32(0x4f4e4600)
+		fw.u32(vr.U32("port"))
+	} else {
+		fw.u8(42 << 1)
+		fw.u8(6)
+		fw.u32(0x4f4e4600)
+		fw.u16(vr.U16("tcpflags"))
+	}
+	add(fw)
+	for _, kind := range []int{0, 16} {
+		fw = &refW{}
+		_ = buildField(kind)
+		refOXM(fw)
+		add(fw)
 	}
 	w.setU16(start+2, uint16(len(w.b)-start))
 	w.padTo8()
